@@ -39,7 +39,12 @@ def gen_case(rng, tier, k):
         bnet = common.g_mixed(rng, nmax=nmax, p_core=0.0)
     if rng.random() < 0.15:
         bnet = common.g_modulated(rng)
-    return {"bnet": bnet, "strategy": rng.choice(STRATS)}
+    st = rng.choice(STRATS)
+    if st in ("build", "block", "scc") and rng.random() < 0.35:
+        # sibling nodes (the two values of an input) with the same variables and wiring but different logic:
+        # what the block / component strategies decide in one of them must not leak into the other
+        bnet = common.g_modulated(rng)
+    return {"bnet": bnet, "strategy": st}
 
 
 def run_strategy(sd, st):
